@@ -27,19 +27,33 @@ Theorem C19_no_pushback_delay : forall t p st a r d ex st', a_pb a = PBnone ->
 Proof. exact no_pushback_delay. Qed.
 Print Assumptions C19_no_pushback_delay.
 
-(* "... lies in [0.8, 1.2] x min(initialBackoff x multiplier^k, maxBackoff)": with cur the
-   capped float64 value (finite, >= 0, cur x (0.8+0.4) below 2^63) and any draw r in
-   [0, 1-2^-53]:  int64(cur x 0.8) <= delay <= int64(cur x (0.8+0.4)), every operation in
-   float64 as the code performs it; the delay is not negative.  cur itself never exceeds
-   float64(MaxBackoff).  (PARTIAL: that cur = min(init x mult^k, max) is finite and >= 0
-   for every validated policy is not proved - math.Pow is transcribed (pow_int) and checked
-   by correspondence only.) *)
-Theorem C19_backoff_interval_partial : forall cur v r, FR cur v -> (0 <= v <= R63)%R ->
+(* "... lies in [0.8, 1.2] x min(initialBackoff x multiplier^k, maxBackoff)": for every
+   policy the service-config parser accepts (policy_ok_b: InitialBackoff > 0, MaxBackoff > 0,
+   BackoffMultiplier > 0 finite), every k and every draw r in [0, 1-2^-53], provided the
+   upper end cur x (0.8+0.4) stays below 2^63 (ovf_delay = false; the complement is the
+   registered overflow finding):  int64(cur x 0.8) <= delay <= int64(cur x (0.8+0.4)) with
+   cur = float64 min(init x Pow(mult,k), max), every operation in float64 as the code
+   performs it, and the delay is not negative. *)
+Theorem C19_backoff_interval : forall p k r, policy_ok_b p = true -> ovf_delay p k = false -> draw_ok r = true ->
+  int_lo p k <= delay_of p k r <= int_hi p k /\ 0 <= int_lo p k.
+Proof. exact backoff_interval. Qed.
+Print Assumptions C19_backoff_interval.
+(* ... because cur is a finite float in [0, 2^63] for every validated policy: the
+   transcribed math.Pow (integer-exponent path: Frexp, square-and-multiply, Ldexp) returns a
+   non-negative finite value or +Inf, never NaN, for every finite x > 0 and every k *)
+Theorem C19_pow_nonneg : forall x v k, FR x v -> (0 < v)%R -> NNF (pow_int x k) \/ PINF (pow_int x k).
+Proof. exact pow_int_nn. Qed.
+Print Assumptions C19_pow_nonneg.
+Theorem C19_cur_finite : forall p k, policy_ok_b p = true -> exists v, FR (cur_of p k) v /\ (0 <= v <= R63)%R.
+Proof. exact cur_FR. Qed.
+Print Assumptions C19_cur_finite.
+(* the interval for an arbitrary finite cur (used above) *)
+Theorem C19_backoff_interval_any_cur : forall cur v r, FR cur v -> (0 <= v <= R63)%R ->
   PrimFloat.leb two63 (cur * (c08 + c04))%float = false -> draw_ok r = true ->
   to_i64 (cur * c08)%float <= to_i64 (jit_of cur r) <= to_i64 (cur * (c08 + c04))%float /\
   0 <= to_i64 (cur * c08)%float.
 Proof. exact delay_interval. Qed.
-Print Assumptions C19_backoff_interval_partial.
+Print Assumptions C19_backoff_interval_any_cur.
 Theorem C19_cur_le_max : forall p k, PrimFloat.ltb (of_i64 (maxB p)) (cur_of p k) = false.
 Proof. exact cur_le_max. Qed.
 Print Assumptions C19_cur_le_max.
@@ -105,15 +119,18 @@ Theorem C19_throttled_is_half : forall t tok, throttled t tok = PrimFloat.leb to
 Proof. exact throttle_rule. Qed.
 Print Assumptions C19_throttled_is_half.
 
-(* Clauses 3 (bucket in [0, max]) and 4 (status, number of retries and bucket value per
-   gRFC A6), as evaluated on implementation traces, hold on every trace of the model: all
-   valid throttling policies, all retry policies, all sequences of RPCs with any scripts of
-   failures (codes, pushback strings). *)
-Theorem C19_core_holds_on_every_model_trace : forall cfg t p vmax vr ops obs,
+(* The executable predicate evaluated on implementation traces (clauses 1-4; 5 and 6 never
+   raised) holds on the model's trace, which exists, for every valid throttling policy,
+   every validated retry policy that does not reach the int64 overflow (no_ovf), and every
+   sequence of RPCs with any scripts of failures (codes, pushback strings whose value fits,
+   op_wf): pushback delays are exact, computed delays are inside the float interval, the
+   bucket stays in range and the outcome follows gRFC A6. *)
+Theorem C19_holds_on_every_model_trace : forall cfg t p vmax vr ops,
   decode_cfg cfg = Some (t, p) -> tcfg_ok t vmax vr ->
-  run cfg ops = Some obs -> forallb (fun c => snd c) (core (clauses cfg ops obs)) = true.
-Proof. exact model_trace_core. Qed.
-Print Assumptions C19_core_holds_on_every_model_trace.
+  policy_ok_b p = true -> no_ovf p -> forallb op_wf ops = true ->
+  exists obs, run cfg ops = Some obs /\ holds_b cfg ops obs = true.
+Proof. exact model_trace_holds. Qed.
+Print Assumptions C19_holds_on_every_model_trace.
 Theorem C19_tcfg_ok_decidable : forall t, tcfg_ok_b t = true -> exists vmax vr, tcfg_ok t vmax vr.
 Proof. exact tcfg_ok_b_sound. Qed.
 Print Assumptions C19_tcfg_ok_decidable.
@@ -122,12 +139,17 @@ Print Assumptions C19_tcfg_ok_decidable.
    three UNAVAILABLE attempts retries after 80ms, 160ms, 320ms (draw 0) and then fails; the
    bucket goes 10 -> 6 and the next RPC is not retried (6 - 1 <= 5); all clauses hold *)
 Definition C19_cfg : word := [4; 100000000; 1000000000; 4611686018427387904; 4621819117588971520; 4591870180066957722].
+Definition C19_ops : list word := [[1; 4; 14; 0; 14; 0; 14; 0; 14; 0]; [1; 1; 14; 0]; [1; 1; 14; 1; 2; 50; 53]].
 Example C19_witness :
-  match decode_cfg C19_cfg with Some (t, _) => tcfg_ok_b t | None => false end = true /\
-  run C19_cfg [[1; 4; 14; 0; 14; 0; 14; 0; 14; 0]; [1; 1; 14; 0]; [1; 1; 14; 1; 2; 50; 53]] =
+  match decode_cfg C19_cfg with
+  | Some (t, p) => tcfg_ok_b t && policy_ok_b p && negb (ovf_delay p 0) && negb (ovf_delay p 1) &&
+                   negb (ovf_delay p 2) && negb (ovf_delay p 3) && (maxAttempts p =? 4)
+  | None => false end = true /\
+  forallb op_wf C19_ops = true /\
+  run C19_cfg C19_ops =
     Some [[14; 3; 80000000; 160000000; 320000000; 4618441417868443648];
           [14; 0; 4617315517961601024]; [14; 0; 4616189618054758400]] /\
-  holds_b C19_cfg [[1; 4; 14; 0; 14; 0; 14; 0; 14; 0]; [1; 1; 14; 0]; [1; 1; 14; 1; 2; 50; 53]]
+  holds_b C19_cfg C19_ops
     [[14; 3; 80000000; 160000000; 320000000; 4618441417868443648];
      [14; 0; 4617315517961601024]; [14; 0; 4616189618054758400]] = true.
 Proof. vm_compute. repeat split. Qed.
